@@ -881,6 +881,268 @@ Qed.
 End FitProps.
 
 (* ------------------------------------------------------------------------------------------ *)
+(** * The fit model only predicts labels of training rows (every arithmetic) *)
+
+Fixpoint leaf_preds {X} (t : tree X) : list nat :=
+  match t with Leaf _ p => [p] | Node _ _ _ _ l r => leaf_preds l ++ leaf_preds r end.
+
+Lemma predict_in_leaf_preds {X} (ox : NumOps X) le (t : tree X) x : In (predict ox le t x) (leaf_preds t).
+Proof.
+  induction t as [d p|d f thr dec l IHl r IHr]; cbn [predict leaf_preds]; [left; reflexivity|].
+  apply in_or_app. destruct (goes_left ox le _ thr); auto.
+Qed.
+
+Lemma prune_leaf_preds {X} (t : tree X) : incl (leaf_preds (fst (prune t))) (leaf_preds t).
+Proof.
+  induction t as [d p|d f thr dec l IHl r IHr]; [apply incl_refl|].
+  pose proof (prune_some_leaf l) as Sl. cbn [prune leaf_preds].
+  destruct (prune l) as [l' pl]; destruct (prune r) as [r' pr]; cbn [fst snd] in *.
+  assert (G : incl (leaf_preds (Node d f thr dec l' r')) (leaf_preds l ++ leaf_preds r)).
+  { cbn [leaf_preds]. apply incl_app; [apply incl_appl | apply incl_appr]; assumption. }
+  destruct pl as [a|]; destruct pr as [b|]; try exact G.
+  destruct (Nat.eqb a b); [|exact G].
+  destruct (Sl a eq_refl) as [d1 E1]. subst l'. cbn [leaf_preds] in *.
+  intros p [Hp|[]]. subst p. apply in_or_app; left. apply IHl. left; reflexivity.
+Qed.
+
+Lemma upd_length {A} (l : list A) k g : length (upd l k g) = length l.
+Proof. revert k; induction l as [|a l IH]; intros [|k]; simpl; auto. Qed.
+
+Lemma combine_seq_nth {A} (l : list A) : forall s i e,
+  In (i, e) (combine (seq s (length l)) l) -> s <= i /\ nth_error l (i - s) = Some e.
+Proof.
+  induction l as [|a l IH]; intros s i e H; simpl in H; [contradiction|].
+  destruct H as [H|H].
+  - inversion H; subst. rewrite Nat.sub_diag. split; auto.
+  - destruct (IH _ _ _ H) as [H1 H2]. split; [lia|].
+    replace (i - s) with (S (i - S s)) by lia. exact H2.
+Qed.
+
+Lemma combine_seq_in {A} (l : list A) : forall s c e,
+  nth_error l c = Some e -> In (s + c, e) (combine (seq s (length l)) l).
+Proof.
+  induction l as [|a l IH]; intros s c e H; [destruct c; discriminate|].
+  destruct c; simpl in *.
+  - inversion H; subst. left. f_equal. lia.
+  - right. replace (s + S c) with (S s + c) by lia. apply IH; exact H.
+Qed.
+
+Lemma in_combine3 {B C} (mask : list bool) (ys : list B) (ws : list C) i :
+  nth_error mask i = Some true -> i < length ys -> i < length ws ->
+  exists y w, nth_error ys i = Some y /\ In (true, y, w) (combine (combine mask ys) ws).
+Proof.
+  revert mask ys ws. induction i as [|i IH]; intros mask ys ws Hm Hy Hw.
+  - destruct mask as [|m mask]; [discriminate|]. destruct ys as [|y ys]; [simpl in Hy; lia|].
+    destruct ws as [|w ws]; [simpl in Hw; lia|]. simpl in Hm. inversion Hm; subst.
+    exists y, w. split; [reflexivity|left; reflexivity].
+  - destruct mask as [|m mask]; [discriminate|]. destruct ys as [|y ys]; [simpl in Hy; lia|].
+    destruct ws as [|w ws]; [simpl in Hw; lia|]. simpl in Hm, Hy, Hw.
+    destruct (IH mask ys ws Hm) as (y' & w' & E & Hin); try lia.
+    exists y', w'. split; [exact E|right; exact Hin].
+Qed.
+
+Section FitLabels.
+Context {W X : Type} (ow : NumOps W) (ox : NumOps X) (cast : W -> X).
+Variable imp : freq_tab (W := W) -> W.
+Variable H : hyper (W := W) (X := X).
+Variable xs : list (list X).
+Variable ys : list nat.
+Variable ws : list W.
+Variable ncls : nat.
+Hypothesis Hys : forall y, In y ys -> y < ncls.
+Hypothesis Hlen_y : length ys = length xs.
+Hypothesis Hlen_w : length ws = length xs.
+
+Definition mstep (acc : option (nat * W)) (ce : nat * option W) : option (nat * W) :=
+  match snd ce with
+  | None => acc
+  | Some fr =>
+      match acc with
+      | None => Some (fst ce, fr)
+      | Some (bi, bf) =>
+          if ltb ow fr bf || (eqb ow bf fr && Nat.ltb bi (fst ce)) then acc else Some (fst ce, fr)
+      end
+  end.
+
+Lemma modal_unfold (t : freq_tab) :
+  modal ow t = match fold_left mstep (combine (seq 0 (length t)) t) None with Some (c, _) => c | None => 0 end.
+Proof. reflexivity. Qed.
+
+Lemma mstep_inv (tab : freq_tab (W := W)) : forall l acc,
+  (forall i e, In (i, e) l -> nth_error tab i = Some e) ->
+  match acc with Some (c, f) => nth_error tab c = Some (Some f) | None => True end ->
+  match fold_left mstep l acc with Some (c, f) => nth_error tab c = Some (Some f) | None => True end.
+Proof.
+  induction l as [|[i e] l IH]; intros acc Hl Ha; simpl; auto.
+  apply IH; [intros; apply Hl; right; assumption|].
+  unfold mstep; simpl. destruct e as [fr|]; auto.
+  assert (Hi : nth_error tab i = Some (Some fr)) by (apply Hl; left; reflexivity).
+  destruct acc as [[bi bf]|]; auto. destruct (ltb ow fr bf || _); auto.
+Qed.
+
+Lemma mstep_some a ce : exists b, mstep (Some a) ce = Some b.
+Proof.
+  unfold mstep. destruct (snd ce) as [fr|]; [|eauto]. destruct a as [bi bf].
+  destruct (ltb ow fr bf || _); eauto.
+Qed.
+
+Lemma mstep_some_stays l : forall a, fold_left mstep l (Some a) <> None.
+Proof.
+  induction l as [|ce l IH]; intros a; cbn [fold_left]; [discriminate|].
+  destruct (mstep_some a ce) as [b ->]. apply IH.
+Qed.
+
+Lemma mstep_becomes_some l : forall acc i v, In (i, Some v) l -> fold_left mstep l acc <> None.
+Proof.
+  induction l as [|ce l IH]; intros acc i v Hin; cbn [fold_left]; [contradiction|].
+  destruct Hin as [E|Hin].
+  - subst ce. destruct acc as [a|].
+    + destruct (mstep_some a (i, Some v)) as [b ->]. apply mstep_some_stays.
+    + unfold mstep; cbn [fst snd]. apply mstep_some_stays.
+  - eapply IH; eauto.
+Qed.
+
+Lemma modal_some (tab : freq_tab (W := W)) c v :
+  nth_error tab c = Some (Some v) -> exists v', nth_error tab (modal ow tab) = Some (Some v').
+Proof.
+  intros Hc. rewrite modal_unfold.
+  pose proof (mstep_inv tab (combine (seq 0 (length tab)) tab) None) as Inv.
+  assert (Hne : fold_left mstep (combine (seq 0 (length tab)) tab) None <> None).
+  { eapply mstep_becomes_some. apply (combine_seq_in tab 0 c). exact Hc. }
+  destruct (fold_left mstep (combine (seq 0 (length tab)) tab) None) as [[c' f']|]; [|congruence].
+  exists f'. apply Inv; auto.
+  intros i e Hin. destruct (combine_seq_nth tab 0 i e Hin) as [_ E]. rewrite Nat.sub_0_r in E. exact E.
+Qed.
+
+(* label_freqs *)
+Definition lstep (t : freq_tab (W := W)) (myw : bool * nat * W) : freq_tab :=
+  let '(m, y, w) := myw in if (m : bool) then tab_add ow t y w else t.
+
+Lemma label_freqs_unfold mask :
+  label_freqs ow ys ws ncls mask = fold_left lstep (combine (combine mask ys) ws) (repeat None ncls).
+Proof. reflexivity. Qed.
+
+Lemma tab_add_nth t y w c :
+  nth_error (tab_add ow t y w) c =
+  if Nat.eqb c y then option_map (fun e => Some (add ow (match e with Some v => v | None => zero ow end) w)) (nth_error t c)
+  else nth_error t c.
+Proof. unfold tab_add. apply upd_nth_error. Qed.
+
+Lemma lstep_labels l : forall t,
+  (forall m y w, In (m, y, w) l -> In y ys) ->
+  (forall c v, nth_error t c = Some (Some v) -> In c ys) ->
+  forall c v, nth_error (fold_left lstep l t) c = Some (Some v) -> In c ys.
+Proof.
+  induction l as [|[[m y] w] l IH]; intros t Hl Ht c v E; cbn [fold_left] in E; [eapply Ht; eauto|].
+  eapply IH; [| |exact E].
+  - intros; eapply Hl; right; eauto.
+  - intros c' v' E'. cbn [lstep] in E'. destruct m; [|eapply Ht; eauto].
+    rewrite tab_add_nth in E'. destruct (Nat.eqb c' y) eqn:Ec; [|eapply Ht; eauto].
+    apply Nat.eqb_eq in Ec; subst c'. eapply Hl. left; reflexivity.
+Qed.
+
+Lemma lstep_some_stays l : forall t c v,
+  nth_error t c = Some (Some v) -> exists v', nth_error (fold_left lstep l t) c = Some (Some v').
+Proof.
+  induction l as [|[[m y] w] l IH]; intros t c v E; cbn [fold_left]; [eauto|].
+  cbn [lstep]. destruct m; [|eapply IH; eauto].
+  destruct (Nat.eqb c y) eqn:Ec.
+  - eapply IH. rewrite tab_add_nth, Ec, E. simpl. reflexivity.
+  - eapply IH. rewrite tab_add_nth, Ec. exact E.
+Qed.
+
+Lemma lstep_length l : forall t, length (fold_left lstep l t) = length t.
+Proof.
+  induction l as [|[[m y] w] l IH]; intros t; cbn [fold_left]; auto. rewrite IH. cbn [lstep]. destruct m; auto.
+  unfold tab_add. apply upd_length.
+Qed.
+
+Lemma lstep_becomes_some l : forall t y w,
+  In (true, y, w) l -> y < length t -> exists v, nth_error (fold_left lstep l t) y = Some (Some v).
+Proof.
+  induction l as [|[[m y'] w'] l IH]; intros t y w Hin Hy; cbn [fold_left]; [contradiction|].
+  destruct Hin as [E|Hin].
+  - inversion E; subst. cbn [lstep].
+    destruct (nth_error t y) as [e|] eqn:Ey; [|apply nth_error_None in Ey; lia].
+    eapply lstep_some_stays. rewrite tab_add_nth, Nat.eqb_refl, Ey. simpl. reflexivity.
+  - eapply IH; eauto. cbn [lstep]. destruct m; auto. unfold tab_add. rewrite upd_length. exact Hy.
+Qed.
+
+(** a mask is usable when it marks at least one existing row *)
+Definition mask_ok (mask : list bool) : Prop :=
+  length mask <= length xs /\ exists i, nth_error mask i = Some true.
+
+
+Lemma modal_label_in_ys mask : mask_ok mask -> In (modal ow (label_freqs ow ys ws ncls mask)) ys.
+Proof.
+  intros [Hlen [i Hi]].
+  assert (Hil : i < length mask) by (apply nth_error_Some; congruence).
+  destruct (in_combine3 mask ys ws i Hi) as (y & w & Ey & Hin); try lia.
+  assert (Hy : In y ys) by (eapply nth_error_In; eauto).
+  destruct (lstep_becomes_some _ (repeat None ncls) y w Hin) as [v Hv].
+  { rewrite repeat_length. apply Hys; exact Hy. }
+  rewrite <- label_freqs_unfold in Hv.
+  destruct (modal_some _ _ _ Hv) as [v' Hv'].
+  rewrite label_freqs_unfold in Hv'. eapply lstep_labels; [| |exact Hv'].
+  - intros m y0 w0 Hin0. apply in_combine_l in Hin0. apply in_combine_r in Hin0. exact Hin0.
+  - intros c v0 E. exfalso. clear -E. revert c E. induction ncls as [|k IH]; intros [|c] E; simpl in E; try discriminate.
+    eapply IH; eauto.
+Qed.
+
+Lemma map2_length {A B C} (g : A -> B -> C) : forall a b, length (map2 g a b) <= length b.
+Proof. induction a as [|x a IH]; intros [|y b]; simpl; try lia. specialize (IH b). lia. Qed.
+
+Lemma count_true_pos m : count_true m <> 0 -> exists i, nth_error m i = Some true.
+Proof.
+  unfold count_true. induction m as [|b m IH]; simpl; [congruence|]. destruct b.
+  - intros _. exists 0; reflexivity.
+  - intros Hc. destruct (IH Hc) as [i Hi]. exists (S i); exact Hi.
+Qed.
+
+Lemma fit_node_leaf_preds sorted : forall fuel mask depth t,
+  mask_ok mask ->
+  fit_node ow ox cast imp H xs ys ws ncls sorted fuel mask depth = Some t ->
+  forall p, In p (leaf_preds t) -> In p ys.
+Proof.
+  induction fuel as [|fuel IH]; intros mask depth t Hm E; cbn [fit_node] in E; [discriminate|].
+  pose proof (modal_label_in_ys mask Hm) as Hmod.
+  assert (Leaf_ok : forall d p, In p (leaf_preds (Leaf (X := X) d (modal ow (label_freqs ow ys ws ncls mask)))) -> In p ys).
+  { intros d p [Hp|[]]. subst p. exact Hmod. }
+  match type of E with (if ?c then _ else _) = _ => destruct c eqn:E1 end.
+  - inversion E; subst. apply Leaf_ok.
+  - match type of E with context [match ?b with Some _ => _ | None => zero ox end] =>
+      destruct b as [[[bf thr] bs]|] eqn:Eb end.
+    + match type of E with (if ?c then _ else _) = _ => destruct c eqn:E2 end.
+      * inversion E; subst. apply Leaf_ok.
+      * match type of E with (if ?c then _ else _) = _ => destruct c eqn:E3 end.
+        -- inversion E; subst. apply Leaf_ok.
+        -- apply orb_false_iff in E3 as [E3l E3r]. apply Nat.eqb_neq in E3l. apply Nat.eqb_neq in E3r.
+           match type of E with context [match ?a with Some _ => _ | None => None end] =>
+             destruct a as [l|] eqn:El end; [|discriminate].
+           match type of E with context [match ?a with Some _ => _ | None => None end] =>
+             destruct a as [r|] eqn:Er end; [|discriminate].
+           inversion E; subst. intros p Hp. cbn [leaf_preds] in Hp. apply in_app_or in Hp as [Hp|Hp].
+           ++ eapply IH; [|exact El|exact Hp]. split; [apply map2_length|apply count_true_pos; exact E3l].
+           ++ eapply IH; [|exact Er|exact Hp]. split; [apply map2_length|apply count_true_pos; exact E3r].
+    + match type of E with (if ?c then _ else _) = _ => destruct c eqn:E2 end; [|discriminate].
+      inversion E; subst. apply Leaf_ok.
+Qed.
+
+Lemma fit_predicts_training_label nfeat t :
+  xs <> [] ->
+  fit ow ox cast imp H xs ys ws ncls nfeat = Some t ->
+  forall le x, In (predict ox le t x) ys.
+Proof.
+  unfold fit. intros Hne E le x.
+  match type of E with match ?a with Some _ => _ | None => None end = _ => destruct a as [t0|] eqn:E0 end;
+    [|discriminate].
+  inversion E; subst. eapply fit_node_leaf_preds; [|exact E0|].
+  - split; [rewrite map_length; lia|]. destruct xs as [|r rs]; [congruence|]. exists 0; reflexivity.
+  - apply prune_leaf_preds. apply predict_in_leaf_preds.
+Qed.
+End FitLabels.
+
+(* ------------------------------------------------------------------------------------------ *)
 (** * Assembled statements used by Properties.v *)
 Local Open Scope R_scope.
 
